@@ -231,6 +231,39 @@ def normalizeSeries (series : List (List V)) : Option (List (List V)) :=
   ((List.range d).mapM fun j => normalizeCol (colOf series j)).map fun cols =>
     tab series.length d fun i j => (cols.getD j []).getD i none
 
+/-! ### sequential RQA (`sparse_rqa=True`): no matrix is stored; the line kernels decide
+`metric_supremum(I, j, dim, E) < eps` cell by cell (`numerics.pyx: _line_dist`, `dim > 0`).
+`metric_supremum` is the same fold as the supremum distance kernel (also on the diagonal,
+where the matrix kernels leave the `np.zeros` entry). -/
+
+def seqRec (emb : List (List V)) (eps : Rat) (I j : Nat) : Bool :=
+  ltV (dist .supremum (rowOf emb I) (rowOf emb j)) (some eps)
+
+/-- the matrix the sequential kernels see -/
+def sparseMatrix (emb : List (List V)) (eps : Rat) : List (List Bool) :=
+  tab emb.length emb.length (seqRec emb eps)
+
+/-! ### `normalize=True` on a multi-column series: every column has its own `(μ_j, σ_j)`;
+the distance of two normalised states is a *weighted* distance of the raw states -/
+
+/-- `|a_l − b_l| / w_l` component by component -/
+def wdiffs (w : List Rat) (a b : List V) : List V :=
+  List.zipWith (fun t s => t.map (· / s)) (List.zipWith absdiff a b) w
+
+/-- the three kernels on weighted differences (the inner loop of `dist`) -/
+def distW (m : Metric) (w : List Rat) (a b : List V) : V :=
+  (wdiffs w a b).foldl
+    (fun acc t =>
+      match m with
+      | .manhattan => addV acc t
+      | .euclidean => addV acc (mulV t t)
+      | .supremum => if gtV t acc then t else acc)
+    (some 0)
+
+/-- a state after `normalize_time_series`: component `l` mapped by `x ↦ (x − μ_l)/σ_l` -/
+def affRow (mu sd : List Rat) (a : List V) : List V :=
+  List.zipWith (fun x (p : Rat × Rat) => affV p.1 p.2 x) a (List.zip mu sd)
+
 /-! ### adaptive neighbourhood size (`_set_adaptive_neighborhood_size`)
 
 The matrix under construction is a function (entries are only ever set to 1);
